@@ -22,6 +22,11 @@ volatile int verif_handoff_env[4]; volatile int verif_entry_kind[4]; volatile in
 void *verif_spawn_a1[4], *verif_spawn_a2[4], *verif_spawn_a3[4];
 
 #if VN == 2
+void verif_m_save(int me){
+  verif_check(!verif_ctx_saved[me], "model: a context is saved only while its thread runs");
+  verif_ctx_saved[me] = 1; verif_on_own_stack[me] = 0;
+}
+void verif_m_leave_stack(int me){ verif_on_own_stack[me] = 0; }
 static inline struct myth_thread *verif_td(int k){ return k == 0 ? &TD0 : &TD1; }
 #elif VN == 3
 static inline struct myth_thread *verif_td(int k){ return k == 0 ? &TD0 : k == 1 ? &TD1 : &TD2; }
@@ -58,7 +63,7 @@ static inline int verif_tid_of_th(void *th){
 #if !VERIF_RICH
 /* private worker per logical thread */
 myth_running_env_t verif_env_of_tid(int t){ return verif_ev(t); }
-static inline void verif_make_runnable(void *q, struct myth_thread *th){
+void verif_make_runnable(void *q, struct myth_thread *th){
   int k = verif_tid_of_th(th);
   (void)q;
   verif_check(k >= 0 && k < VN, "model: only thread descriptors are made runnable");
@@ -66,8 +71,8 @@ static inline void verif_make_runnable(void *q, struct myth_thread *th){
   verif_check(!verif_wake[k], "a thread is made runnable at most once per suspension (no double resume)");
   verif_wake[k] = 1; verif_nrun[k]++;
 }
-static inline struct myth_thread *verif_pop(void *q){ (void)q; return 0; }
-static inline void verif_switch_to(myth_context_t to, int me){
+struct myth_thread *verif_pop(void *q){ (void)q; return 0; }
+void verif_switch_to(myth_context_t to, int me){
   int k = verif_tid_of_ctx(to);
   (void)me;
   if (k >= 0) {   /* direct switch to a thread (e.g. the joiner at thread exit) */
@@ -76,7 +81,7 @@ static inline void verif_switch_to(myth_context_t to, int me){
     verif_wake[k] = 2; verif_nrun[k]++;
   }
 }
-static inline void verif_after_resume(int me){
+void verif_after_resume(int me){
   verif_wake[me] = 0; verif_ctx_saved[me] = 0; verif_on_own_stack[me] = 1;
   /* branch on the index: never write through a pointer selected by a symbolic chain (DESIGN 2.3) */
   if (me == 0) { EV0.this_thread = &TD0; TD0.env = &EV0; }
@@ -92,7 +97,7 @@ static inline void verif_after_resume(int me){
 #endif
 }
 static inline int verif_is_create_cb(void *fn){ (void)fn; return 0; }
-static inline void verif_spawn(myth_context_t to, int me, void *a1, void *a2, void *a3){ (void)to; (void)me; (void)a1; (void)a2; (void)a3; }
+void verif_spawn(myth_context_t to, int me, void *a1, void *a2, void *a3){ (void)to; (void)me; (void)a1; (void)a2; (void)a3; }
 static inline void verif_model_init(void){
   EV0.rank = 0; EV0.this_thread = &TD0; TD0.env = &EV0;
   EV1.rank = 1; EV1.this_thread = &TD1; TD1.env = &EV1;
@@ -125,7 +130,7 @@ static inline int verif_env_of_sched_ctx(myth_context_t c){
          -1;
 }
 myth_running_env_t verif_env_of_tid(int t){ return verif_ev(verif_env_of[t]); }
-static inline void verif_make_runnable(void *q, struct myth_thread *th){
+void verif_make_runnable(void *q, struct myth_thread *th){
   int k = verif_tid_of_th(th); int e = verif_env_index(q);
   verif_check(k >= 0 && k < VN && e >= 0, "model: only thread descriptors are made runnable, on a worker's own queue");
   verif_check(verif_ctx_saved[k], "a thread is made runnable only after its context has been saved");
@@ -133,7 +138,7 @@ static inline void verif_make_runnable(void *q, struct myth_thread *th){
   verif_wake[k] = 1; verif_rq[k] = e; verif_nrun[k]++; verif_go[k] = 1;
 }
 /* owner-side pop: nondeterministically nothing (already stolen / empty) or one of the threads queued on this worker */
-static inline struct myth_thread *verif_pop(void *q){
+struct myth_thread *verif_pop(void *q){
   int e = verif_env_index(q); long c = nondet_long();
 #define VERIF_POP_CAND(k) if (c == k && verif_wake[k] == 1 && verif_rq[k] == e) { verif_wake[k] = 3; verif_go[k] = 0; return verif_td(k); }   /* popped: only the popper may switch to it */
   VERIF_POP_CAND(0) VERIF_POP_CAND(1)
@@ -145,7 +150,7 @@ static inline struct myth_thread *verif_pop(void *q){
 #endif
   return 0;
 }
-static inline void verif_switch_to(myth_context_t to, int me){
+void verif_switch_to(myth_context_t to, int me){
   int k = verif_tid_of_ctx(to); int e = verif_env_of[me];
   if (k >= 0) {   /* the worker is handed directly to thread k */
     verif_check(verif_ctx_saved[k], "a context is resumed only after it has been saved");
@@ -159,10 +164,10 @@ static inline void verif_switch_to(myth_context_t to, int me){
   }
   verif_env_of[me] = -1;
 }
-static inline void verif_take_env(int me, int e){
+void verif_take_env(int me, int e){
   verif_env_of[me] = e; verif_env_busy[e] = 1;
 }
-static inline void verif_after_resume(int me){
+void verif_after_resume(int me){
   int e;
   if (verif_wake[me] == 2) e = verif_handoff_env[me];
   else {          /* stolen (or picked by the idle owner): runs on the lowest-numbered idle worker, set up as myth_sched_loop does */
@@ -191,20 +196,15 @@ static inline void verif_after_resume(int me){
   verif_take_env(me, e);
 }
 static void myth_entry_point(void);
-static inline void myth_make_context_empty(myth_context_t ctx, void *stack, size_t stacksize){
-  int k = verif_tid_of_ctx(ctx); (void)stack; (void)stacksize;
+void verif_m_make_context(myth_context_t ctx, int kind, void *func, void *stack){
+  int k = verif_tid_of_ctx(ctx);
   verif_check(k >= 0 && !verif_started[k] && stack != 0, "model: a fresh context is made for a thread that has not started, on a real stack");
-  verif_entry_kind[k] = 1; verif_ctx_saved[k] = 1;
-}
-static inline void myth_make_context_voidcall(myth_context_t ctx, void_func_t func, void *stack, size_t stacksize){
-  int k = verif_tid_of_ctx(ctx); (void)stacksize;
-  verif_check(k >= 0 && !verif_started[k] && stack != 0, "model: a fresh context is made for a thread that has not started, on a real stack");
-  verif_check(func == myth_entry_point, "model: parent-first threads start in myth_entry_point");
-  verif_entry_kind[k] = 2; verif_ctx_saved[k] = 1;
+  if (kind == 2) verif_check(func == (void*)myth_entry_point, "model: parent-first threads start in myth_entry_point");
+  verif_entry_kind[k] = kind; verif_ctx_saved[k] = 1;
 }
 static inline int verif_is_create_cb(void *fn){ return fn == (void*)myth_create_1; }
 /* child-first creation: the fresh child context takes over the creator's worker and runs the real myth_create_1 */
-static inline void verif_spawn(myth_context_t to, int me, void *a1, void *a2, void *a3){
+void verif_spawn(myth_context_t to, int me, void *a1, void *a2, void *a3){
   int c = verif_tid_of_ctx(to); int e = verif_env_of[me];
   verif_check(c >= 0 && c < VN && verif_entry_kind[c] == 1 && !verif_started[c], "model: child-first creation switches to a fresh context");
   verif_spawn_a1[c] = a1; verif_spawn_a2[c] = a2; verif_spawn_a3[c] = a3;
@@ -212,16 +212,15 @@ static inline void verif_spawn(myth_context_t to, int me, void *a1, void *a2, vo
   verif_env_of[me] = -1;
 }
 /* body of a child logical thread */
+void verif_m_child_start(int k){           /* atomic with the parking point before it */
+  if (verif_entry_kind[k] == 1) { verif_wake[k] = 0; verif_go[k] = 0; verif_on_own_stack[k] = 1; verif_take_env(k, verif_handoff_env[k]); }
+  else { verif_started[k] = 1; verif_after_resume(k); }
+}
 static inline void verif_child_main(int k){
   verif_park(&verif_go[k]);
-  if (verif_entry_kind[k] == 1) {
-    verif_wake[k] = 0; verif_go[k] = 0; verif_on_own_stack[k] = 1; verif_take_env(k, verif_handoff_env[k]);
-    myth_create_1(verif_spawn_a1[k], verif_spawn_a2[k], verif_spawn_a3[k]);
-  } else {
-    verif_started[k] = 1;
-    verif_after_resume(k);
-    myth_entry_point();
-  }
+  verif_m_child_start(k);
+  if (verif_entry_kind[k] == 1) myth_create_1(verif_spawn_a1[k], verif_spawn_a2[k], verif_spawn_a3[k]);
+  else myth_entry_point();
 }
 static inline void verif_model_init(void){
   EV0.rank = 0; EV1.rank = 1;
